@@ -24,6 +24,9 @@ checks={
  "C02": dict(category="fault_enumeration", design="§3 C02", technique="exhaustive single-fault enumeration (7 byte-level fault kinds x every control-byte offset and a fixed family of payload offsets x both directions), fault pairs in the thorough tier, each a full transfer on the real code in virtual time",
    text="For each configuration the unfaulted transcript is recorded, then every (direction, offset, kind) fault is injected into the connection of a fresh run; whenever a side reports names as saved, those names must be at the destination with exactly the source's content. Thorough adds pairs of faults on every pair of protocol lines and more configurations (protocol 1, archive, resume, escape-all binary, relay, Windows framing).",
    note="Payload interiors are covered at the first/last 24 bytes and every 61st byte of each DATA payload (a fixed family, stated in the evidence), control bytes at every offset. Hangs and crashes provoked by faults are counted here and decided by C11/C12."),
+ "C11": dict(category="fault_enumeration", design="§3 C11", technique="exhaustive enumeration of message-level connection faults and local I/O failures at every index, each a full transfer on the real code in virtual time; thorough: all schedules with <=1 deviation (preemption, select alternative, timer landing first) on top of each fault",
+   text="For each configuration: silence or write error from every message index on in either direction (after the ACT was delivered) and in both at once, every k-th call of every local I/O seam failing, and the source shrinking on disk before every k-th read. Oracle: no virtual deadlock, both sides return within 2*timeout+3s (+latency, + injected stalls), success only with correct files, and at quiescence no goroutine spawned by transfer code is alive except the connection pumps.",
+   note="timeout=3s virtual; a side that never received the configuration is held to its own default (20 s). One open known finding (encoder goroutine stuck in bufInitWG.Wait) is listed in known_findings.json. Real TCP semantics are represented by the fake connection's read/write outcomes."),
 }
 not_yet="check not built yet in this session (framework under construction; see DESIGN.md §7 order)"
 m={"version":1,
